@@ -226,6 +226,11 @@ func (e *exec) introspect(obj *Obj, objType *ast.Definition, fd *ast.FieldDefini
 			}
 			out := []any{}
 			for _, pt := range e.s.PossibleTypes[def.Name] {
+				// the possible types of an abstract type are object types; gqlparser also files the interfaces
+				// that implement an interface there (it needs them for validation)
+				if pt.Kind != ast.Object {
+					continue
+				}
 				out = append(out, e.namedTypeObj(pt.Name))
 			}
 			return out
